@@ -77,8 +77,8 @@ ASSUMPTIONS = [
     'bodies are decoded by the harness with json/csv, request bodies use the plain application/json (row dicts, TF '
     'instances) and text/csv decoders because pandas.read_json is unusable under pandas 3 here',
     'a batch that does not complete within its deadline is inconclusive unless it times out again on two fresh engines',
-    'most batches run behind a warm-up (one sequential request, then one per application) so that the known '
-    'first-request race of the descriptor cache does not hide everything else; cold batches are counted separately',
+    'most batches run behind a warm-up (one sequential request, then one per application); cold batches (fresh engine, '
+    'no warm-up, slow inventory) are counted separately',
 ]
 FLOORS = {'size:8+': 0.4, 'size:32-64': 0.15, 'fault:any': 0.4, 'apps:2+': 0.25, 'selector:abtest': 0.06, 'cold': 0.02, 'nonmonotone': 0.4}
 SHARDS_THOROUGH = 8  # two shards per pool size 1-4; every shard runs its own engine with ~20 processes
@@ -92,8 +92,8 @@ LEVEL_TEXT = (
 LEVEL_NOTE = (
     'Trusted: harness actors/feed/inventory (vf/proj), own json/csv response decoder, Hypothesis. Sampled schedules '
     'only; races with sub-millisecond windows can be missed. Batch timeouts are inconclusive unless reproduced twice on '
-    'fresh engines. ABTest applications are judged for self-consistency only. Known finding: first-request race of the '
-    'descriptor cache (cold batches), masked for the affected requests.'
+    'fresh engines. ABTest applications are judged for self-consistency only. The first-request race of the descriptor '
+    'cache (cold batches) was repaired by 8141b26; its signature is still recognised and would be reported.'
 )
 TECHNIQUE = 'property-based testing (Hypothesis) of concurrent request batches with fault injection vs per-request reference model'
 
